@@ -701,6 +701,11 @@ func jsondecStream(rng *rand.Rand, n int, tier string, out string) (*Summary, er
 		for k := 0; k < quota/4; k++ {
 			g.pField = 0.5
 			b := g.genTree()
+			if p.Flags["wrapper_unions"] {
+				// as in the merge family: lists keyed by a wrapper union never merge by key (the keys
+				// are pointers), which the tree model cannot express when the target is populated
+				dropInterfaceKeyedMaps(reflect.ValueOf(b))
+			}
 			mb, err := ygot.ConstructIETFJSON(b, (jcfgT{appendMod: rng.Intn(2) == 0}).ygot())
 			if err != nil {
 				continue
